@@ -23,6 +23,7 @@ import (
 	"fmt"
 	"io"
 	"net"
+	"os"
 	"reflect"
 	"strconv"
 	"strings"
@@ -819,6 +820,9 @@ func n10Judge(c *n10Case, st *vStat) (out n10Out, judged bool) {
 		// replication did not converge while the cluster was prepared or after the script: that is C09's
 		// property and C09's list of findings (its keys are not passed to a C10 run); noted, not judged here
 		fmt.Printf("VERIF-NOTE C10 case ran into a C09 matter key=%s (judged by the C09 check)\n", out.key)
+		if os.Getenv("VERIF_C10_VERBOSE") != "" {
+			fmt.Printf("%.2500s\n", out.err.Error())
+		}
 		st.Class("case ran into a C09 finding (not judged by C10): "+out.key, 1)
 		return out, false
 	}
